@@ -20,7 +20,9 @@ LEVEL_TEXT = (
     "soups over ~90 hostile atoms and character-level mutations of valid formulas are fed to the real parser under every "
     "feature-flag subset, both intercept settings, with and without a variable context; the monitor classifies each outcome "
     "(formula / FormulaParsingError / excusable SyntaxError / anything else = violation), counts interpreter steps per parse "
-    "against a polynomial budget, and checks that generator-rendered valid formulas using a disabled operator are rejected."
+    "against a budget tied to the size of the input (short inputs) or of the result (long ones), and checks that generator-rendered "
+    "valid formulas using a disabled operator are rejected - also when the parser was reconfigured, copied, pickled, or built "
+    "around a subclassed operator resolver. A further sub-monitor feeds inputs with thousands of operands or parentheses."
 )
 LEVEL_NOTE = "trusts: ast.parse as the judge of whether an embedded Python fragment is itself invalid; my brace/call fragment scanner"
 RULE = (
@@ -31,7 +33,7 @@ RULE = (
 )
 ASSUMPTIONS = [
     "a bare SyntaxError is excused only if some {...} or name(...) fragment of the input (found by the library's tokenizer or by my own scanner) is rejected by ast.parse",
-    "step budget: 4000 + 60*len + 6*len^2 PY_START events per parse for inputs of <= 24 characters, a flat 3e6 cap for longer ones (term sets legitimately grow like 2^k for 'a*b*c*...'; exponents are capped at 3 by the generators)",
+    "step budget (PY_START events per parse): 4000 + 60*len + 6*len^2 for inputs of <= 24 characters; longer inputs are judged once the result is known, against 3e6 + 100*T*(log2 T + 2)^2 for a result of T terms (term sets legitimately grow like 2^k for 'a*b*c*...' and for powers of k-term operands), under a hard cap of 6e7 - reaching the cap is a violation unless the input holds an exponent of >= 4 digits, in which case the case is inconclusive; the very long inputs of the 'long' sub-monitor get 3e6 + len^2/5",
 ]
 
 ALPHABET = ["a", "1", "0", "2.5", "(", ")", "[", "]", "+", "-", ":", "*", "/", "**", "~", "|"]
